@@ -44,7 +44,7 @@ impl Problem {
         match self.kind.as_str() {
             "sho" | "vdp" | "lin2" => 2,
             "robertson" | "lin3" => 3,
-            "chain4" => 4,
+            "chain4" | "cascade4" => 4,
             _ => 1,
         }
     }
@@ -65,7 +65,7 @@ impl Problem {
             "vdp" => vec![2.0, 0.0],
             "lin2" => vec![1.0, 0.5],
             "lin3" => vec![1.0, -0.5, 0.25],
-            "chain4" => vec![1.0, 0.0, 0.0, 0.0],
+            "chain4" | "cascade4" => vec![1.0, 0.0, 0.0, 0.0],
             _ => vec![1.0],
         }
     }
@@ -107,6 +107,14 @@ impl Problem {
                 d[1] = p * y[0] - y[1];
                 d[2] = p * y[1] - y[2];
                 d[3] = p * y[2] - y[3];
+            }
+            // forced tridiagonal cascade: y_i' = -(1+i/2) y_i + p y_{i-1} - y_{i+1}/2 (+ cos(0.3 t) for i = 0)
+            "cascade4" => {
+                for i in 0..4 {
+                    let left = if i > 0 { y[i - 1] } else { 0.0 };
+                    let right = if i < 3 { y[i + 1] } else { 0.0 };
+                    d[i] = -(1.0 + 0.5 * i as f64) * y[i] + p * left - 0.5 * right + if i == 0 { (0.3 * t).cos() } else { 0.0 };
+                }
             }
             "lin3" => {
                 d[0] = -y[0] + 0.5 * y[1];
@@ -160,6 +168,14 @@ impl Problem {
                 for v in j.iter_mut() { *v = 0.0; }
                 for r in 0..4 { j[r * 4 + r] = -1.0; }
                 for r in 1..4 { j[r * 4 + r - 1] = p; }
+            }
+            "cascade4" => {
+                for v in j.iter_mut() { *v = 0.0; }
+                for r in 0..4 {
+                    j[r * 4 + r] = -(1.0 + 0.5 * r as f64);
+                    if r > 0 { j[r * 4 + r - 1] = p; }
+                    if r < 3 { j[r * 4 + r + 1] = -0.5; }
+                }
             }
             "lin3" => {
                 j[0] = -1.0;
@@ -221,7 +237,7 @@ impl Problem {
     /// half bandwidth of the Jacobian of the composed problem
     pub fn bandwidth(&self) -> usize {
         match self.kind.as_str() {
-            "lin3" | "chain4" => 1,
+            "lin3" | "chain4" | "cascade4" => 1,
             _ => self.base_dim() - 1,
         }
     }
